@@ -99,7 +99,7 @@ def nontrivial(c, impl, verd):
 
 def observe(dist, c, impl, verd):
     for w in verd.split():
-        if w in ("refined", "unrefined", "nonid", "id") or w.startswith("n=") or w.startswith("labels=") or w.startswith("kind="):
+        if w in ("refined", "unrefined", "nonid", "id") or w.startswith("n=") or w.startswith("labels=") or w.startswith("kind=") or w.startswith("algo="):
             dist[w] = dist.get(w, 0) + 1
         elif w.startswith("blocks="):
             k = int(w[7:]); b = "blocks=1" if k == 1 else "blocks=2-3" if k <= 3 else "blocks>=4"
@@ -122,11 +122,14 @@ LEVEL_TEXT = ("Coq theorems (all LTSs, partitions and block relations, no bounds
               "restriction reports exactly the pairs below the requested size; plus a theorem that the boolean gate used on libvata's output "
               "holds iff the output is that relation. Tie to the C++: the engine rebuilt from /repo's working tree is driven directly "
               "(addTransition/init/computeSimulation) on generated systems for every output size and its relation is compared exactly.")
-LEVEL_NOTE = ("The engine's refinement algorithm itself (splitting, counters, remove queues of src/explicit_lts_sim.cc) is NOT modelled "
-              "algorithmically: the theorems fix the function it must compute and the tie to the C++ is behavioural (exact equality of the "
-              "returned relation on generated inputs, distribution in the evidence). Trusted: Coq kernel, ExtrOcamlBasic extraction, OCaml/C++ "
+LEVEL_NOTE = ("The engine's refinement algorithm (src/explicit_lts_sim.cc) is modelled at the level of states (every block a singleton): pruning "
+              "by enabled labels, remove sets, the queue, and the counters are proved partially correct for every fuel and queue discipline "
+              "(C16_algo_*, C16_counters_*; counters computed before the pruning are refuted); the splitting of blocks and the shared-counter "
+              "storage are NOT modelled. The gate is the functional model: the tie to the C++ is behavioural (exact equality of the "
+              "returned relation on generated inputs, distribution in the evidence; the algorithmic models are executed on the small systems "
+              "and compared with the functional model as drift). Trusted: Coq kernel, ExtrOcamlBasic extraction, OCaml/C++ "
               "glue, generators. No axioms (Print Assumptions: closed under the global context).")
 TECHNIQUE = "Coq proof of a functional model (greatest fixpoint by refinement) + verified gate; extracted-model correspondence against the engine driven directly"
 DESIGN_REF = "DESIGN.md 5/C16"
-EXPLANATION = "drift is not used: the API contract fixes the returned relation, so equality with the model is the gate"
+EXPLANATION = "the API contract fixes the returned relation, so equality with the functional model is the gate; drift = the extracted models of the refinement algorithm (remove sets, counters) disagree with the functional model on a small system (never observed)"
 READY = True
